@@ -71,6 +71,7 @@ def run_case(ctx, name, params):
     r = ctx.rng(name, params["seed"])
 
     reuse = {}
+    kept = {}
 
     def ev(prob, x, as_np, fam):
         if as_np is True:
@@ -112,6 +113,20 @@ def run_case(ctx, name, params):
                     return None
             res = prob.evaluate(ind)
             out = [float(v) for v in res]
+            # what an earlier call returned belongs to that call (it is stored as the design's costs): a later evaluation on the
+            # same problem object must not change it
+            prev = kept.get(id(prob))
+            if prev is not None:
+                ctx.count("earlier_results_rechecked_after_a_later_evaluation")
+                try:
+                    now = [float(v) for v in prev[1]]
+                except Exception:
+                    now = None
+                if now != prev[2]:
+                    ctx.violation("%s/earlier_result_changed" % fam, "the objective vector returned for an earlier point changed when another "
+                                  "point was evaluated on the same problem object (was %r, now %r)" % (prev[2], now), {"earlier_x": prev[3]})
+                    return None
+            kept[id(prob)] = (prob, res, list(out), [float(v) for v in x])
         except Exception as e:
             ctx.violation("%s/exception" % fam, "%s.evaluate raised %r on a box point" % (fam, e), {"x": x, "numpy": getattr(as_np, "__name__", as_np)})
             return None
